@@ -18,7 +18,14 @@ impl TryFrom<TimeDelta> for crate::Duration {
     type Error = TimeError;
 
     fn try_from(value: TimeDelta) -> Result<Self, Self::Error> {
-        let nanos = value.num_nanoseconds().ok_or(TimeError::InvalidDuration)? as u64;
+        let seconds =
+            u64::try_from(value.num_seconds()).map_err(|_| TimeError::InvalidDuration)?;
+        let subsec =
+            u64::try_from(value.subsec_nanos()).map_err(|_| TimeError::InvalidDuration)?;
+        let nanos = seconds
+            .checked_mul(1_000_000_000)
+            .and_then(|nanos| nanos.checked_add(subsec))
+            .ok_or(TimeError::InvalidDuration)?;
         Ok(Self { nanos })
     }
 }
@@ -27,11 +34,11 @@ impl TryFrom<crate::Duration> for TimeDelta {
     type Error = TimeError;
 
     fn try_from(value: crate::Duration) -> Result<Self, Self::Error> {
-        let nanos = value
-            .nanos
-            .try_into()
+        let seconds = i64::try_from(value.nanos / 1_000_000_000)
             .map_err(|_| TimeError::InvalidDuration)?;
-        Ok(TimeDelta::nanoseconds(nanos))
+        let subsec = u32::try_from(value.nanos % 1_000_000_000)
+            .map_err(|_| TimeError::InvalidDuration)?;
+        TimeDelta::new(seconds, subsec).ok_or(TimeError::InvalidDuration)
     }
 }
 
